@@ -38,6 +38,10 @@ type Case struct {
 	SlotInEp uint64         `json:"slot_in_epoch"`
 	MixSeed  uint64         `json:"mix_seed"`
 	Vals     []Val          `json:"vals"`
+	// Repoint: afterwards the SAME context object is loaded (LoadShuffling, LoadProposers, LoadSyncCommittees —
+	// the exported methods NewEpochsContext itself is made of) from a second state of the same epoch and
+	// registry with another randao history; it must then report the second state's assignments
+	Repoint bool `json:"repoint,omitempty"`
 }
 
 func epochRel(cur uint64, off int) uint64 {
@@ -376,7 +380,48 @@ func runSynthetic(r *report.Run, c *Case) *report.Failure {
 	if panicked {
 		return report.Failf("lookup/panic", "%v", e)
 	}
-	return f
+	if f != nil || !c.Repoint {
+		return f
+	}
+	c2 := *c
+	c2.MixSeed = c.MixSeed ^ 0x5bd1e995a5a5a5a5
+	ref2 := buildState(sp, &c2)
+	if c.Fork >= refspec.Altair {
+		ref2.CurrentSyncCommittee = sp.GetNextSyncCommittee(ref2)
+		ref2.NextSyncCommittee = ref2.CurrentSyncCommittee
+	}
+	lib2, err := zb.LoadState(spec, c.Fork, sp.StateBytes(ref2))
+	if err != nil {
+		return report.Failf("harness", "library cannot load the second synthetic state: %v", err)
+	}
+	e, panicked, blocked = sim.GuardTimeout(120*time.Second, func() error {
+		if err := epc.LoadShuffling(lib2); err != nil {
+			return err
+		}
+		if err := epc.LoadProposers(lib2); err != nil {
+			return err
+		}
+		if sc, ok := lib2.(common.SyncCommitteeBeaconState); ok {
+			if err := epc.LoadSyncCommittees(sc); err != nil {
+				return err
+			}
+		}
+		f = compareAssignments(r, sp, spec, ref2, lib2, epc, fmt.Sprintf("context re-loaded from a second state (registry of %d, other randao history)", len(c.Vals)))
+		return nil
+	})
+	if e == sim.ErrPoisoned {
+		return nil
+	}
+	if blocked || panicked || e != nil {
+		return report.Failf("reload/error", "Load* on a used context: %v (panic=%v, blocked=%v)", e, panicked, blocked)
+	}
+	if f != nil {
+		f.Sig = "reloaded-context/" + f.Sig
+		return f
+	}
+	r.Hit("context-re-loaded-from-another-state-of-the-epoch")
+	r.Class("context-re-loaded-from-another-state-of-the-epoch")
+	return nil
 }
 
 func runChain(r *report.Run, cc *sim.ChainCase) *report.Failure {
@@ -535,13 +580,14 @@ func genSynthetic(t *rapid.T) *Case {
 	if c.Vals[0].EffInc == 0 && balProfile != "zeroes" {
 		c.Vals[0].EffInc = maxInc
 	}
+	c.Repoint = rapid.IntRange(0, 3).Draw(t, "repoint") == 0
 	return c
 }
 
 func TestCheck(t *testing.T) {
 	r := report.Begin("C07")
 	defer r.Finish()
-	r.Rule("(a) synthetic registries of 1..300 validators drawn directly (sizes straddling SLOTS_PER_EPOCH*TARGET_COMMITTEE_SIZE*k, activation/exit epochs within ±2 of the current epoch, effective balances from 0 to MAX incl. thresholds, random randao mixes, any slot, any fork's state type, mainnet/minimal/custom presets) loaded into the library from reference-encoded bytes; (b) every epoch boundary of generated chains with the live context. Every committee of previous/current/next epoch, every proposer of the current epoch, the next sync committee (members, indices, aggregate key) compared with refspec; plus the partition predicate. non-trivial = >=2 committees per slot or >=1 validator inactive in a queried epoch or a non-uniform effective-balance vector; distinct key = (preset family, active count, committees per slot, balance profile, fork)")
+	r.Rule("(a) synthetic registries of 1..300 validators drawn directly (sizes straddling SLOTS_PER_EPOCH*TARGET_COMMITTEE_SIZE*k, activation/exit epochs within ±2 of the current epoch, effective balances from 0 to MAX incl. thresholds, random randao mixes, any slot, any fork's state type, mainnet/minimal/custom presets) loaded into the library from reference-encoded bytes, a quarter of them followed by loading the same context object from a second state of the same epoch with another randao history; (b) every epoch boundary of generated chains with the live context. Every committee of previous/current/next epoch, every proposer of the current epoch, the next sync committee (members, indices, aggregate key) compared with refspec; plus the partition predicate. non-trivial = >=2 committees per slot or >=1 validator inactive in a queried epoch or a non-uniform effective-balance vector; distinct key = (preset family, active count, committees per slot, balance profile, fork)")
 	r.Assume("refspec is the spec (per-index compute_shuffled_index, no caches)", "synthetic states respect the registry invariants the spec maintains (activation <= exit, withdrawable after exit) and have >=1 validator active in the current and next epoch (an empty active set is known finding F-C02-05)")
 	replay := func(raw json.RawMessage) *report.Failure {
 		var probe struct {
@@ -565,7 +611,7 @@ func TestCheck(t *testing.T) {
 	if r.Replay != "" {
 		return
 	}
-	r.Mandatory("proposer-sampling-can-reject", "sync-committee-with-duplicates", "previous!=current-active-set", ">=2-committees-per-slot")
+	r.Mandatory("context-re-loaded-from-another-state-of-the-epoch", "proposer-sampling-can-reject", "sync-committee-with-duplicates", "previous!=current-active-set", ">=2-committees-per-slot")
 	if !r.Search(t, "synthetic", 0, r.N(1500, 18000), func(rt *rapid.T) (any, *report.Failure) {
 		c := genSynthetic(rt)
 		return c, runSynthetic(r, c)
